@@ -84,7 +84,9 @@ const HEADER_SNIPPETS: &[&str] = &[
 
 const UNI_DIGITS: &[char] = &['\u{663}', '\u{ff11}', '\u{b2}', '\u{bd}', '\u{96f}', '\u{1d7d8}', '\u{2167}'];
 const UNI_SPACES: &[char] = &['\u{a0}', '\u{2003}', '\u{3000}', '\u{85}', '\u{2028}', '\u{1680}'];
-const UNI_LETTERS: &[char] = &['é', '漢', 'ß', 'İ', '\u{1d4d0}', 'ǅ', 'ſ', 'K'];
+// (letters whose lower/upper-case forms have another length in UTF-8 included: U+212A KELVIN SIGN
+// -> 'k', U+212B ANGSTROM SIGN -> U+00E5, U+0130 -> 'i' + combining dot, U+017F -> 's'/'S')
+const UNI_LETTERS: &[char] = &['é', '漢', 'ß', 'İ', '\u{1d4d0}', 'ǅ', 'ſ', '\u{212a}', '\u{212b}', '\u{2126}'];
 const UNI_ANY: &[char] = &[
     'é', '漢', '\u{2028}', '♠', '\u{a0}', '\u{663}', '\u{ff11}', '\u{b2}', '\u{2003}', '\u{3000}', '\u{85}', '\u{301}', '\u{1f600}', '\u{1d7d8}', 'İ', '\u{feff}', '\u{200b}',
 ];
